@@ -16,6 +16,8 @@
 #include <poll.h>
 #include <signal.h>
 #include <sys/ioctl.h>
+#include <sys/stat.h>
+#include "vctl.h"
 
 enum { PROP_C04, PROP_C16 };
 static int prop;
@@ -39,6 +41,7 @@ struct ecase {
     int nmsg; bool bidir; int plan_class; bool speculative_start; bool use_dns; int dns_deliver; int dns_after;
     int topology;              /* 0 direct accepting; 1 [no-answer, accepting] sequential; 2 [refusing, accepting] sequential; 3 happy eyeballs v6 no-answer + v4 accepting */
     int size_class; bool blocking_scenario; int blocking_kind;
+    bool ctl;                  /* C16: control interface on; control clients attach at the quiescent point */
 };
 
 #define MAXA 6
@@ -509,6 +512,60 @@ static void probe_backpressure(struct agent *a, struct agent *p)
     veng_check_delivery(cur_case, &p->ep, &a->ep, false, ctx);
 }
 
+
+/* Control clients come and go while everything is idle: as many as the interface seats on each socket, one more that has to queue, then
+ * all of them leave.  Serving them wakes the owner up (by design); once served, an idle socket is quiet again - whatever the number of
+ * clients attached or queued. */
+static char ctl_dir16[700];
+static void owner_turns(int n)
+{
+    unsigned char b[64];
+    for (int k = 0; k < n; k++)
+        for (int i = 0; i < n_ag; i++) {
+            struct agent *a = &ag[i];
+            if (!a->ep.s || a->failed || a->ep.term) continue;
+            if (a->role == R_SERVER) { struct vs_scope sc = { .active = true, .nonblocking = true, .api = "xcm_accept_a", .ep = a->ep.id, .plan = NULL }; vs_enter(&sc); struct xcm_socket *x = xcm_accept_a(a->ep.s, NULL); vs_leave(); if (x) { xcm_close(x); eviol("unexpected-connection", vtp_name[a->ep.tp], "server produced a connection nobody made"); } }
+            else { int rc = vx_receive(&a->ep, b, sizeof b); if (rc > 0) eviol("unexpected-data-at-quiescence", vtp_name[a->ep.tp], "xcm_receive returned %d bytes on idle ep%d while control clients were being served", rc, a->ep.id); else if (rc == 0) a->ep.term = 1; else if (errno != EAGAIN) a->ep.term = 2; }
+        }
+}
+
+static bool all_quiet(const char *when, int attached, int queued)
+{
+    for (int i = 0; i < n_ag; i++) {
+        struct agent *a = &ag[i]; short rev;
+        if (!a->ep.s || a->failed || a->ep.term) continue;
+        vobs("probe_quiet_with_control_clients", 1);
+        if (!quiet_samples(a, 4, &rev)) {
+            owner_turns(6);
+            if (!quiet_samples(a, 4, &rev)) {
+                eviol("not-quiet:control-clients", vtp_name[a->ep.tp], "%s: %s ep%d is idle and awaits %s, its owner has made more than 20 event-loop turns, yet its xcm fd stays readable (%d control client(s) per socket attached, %d queued)", when,
+                      a->role == R_SERVER ? "server socket" : "connection", a->ep.id, a->role == R_SERVER ? "ACCEPTABLE" : "RECEIVABLE", attached, queued);
+                return false;
+            }
+        }
+    }
+    return true;
+}
+
+static void probe_ctl_quiet(void)
+{
+    for (int i = 0; i < n_ag; i++) { struct agent *a = &ag[i]; if (!a->ep.s || a->failed || a->ep.term) continue; vx_await(&a->ep, a->role == R_SERVER ? XCM_SO_ACCEPTABLE : XCM_SO_RECEIVABLE); }
+    int fds[4][8], n[4] = { 0, 0, 0, 0 };
+    int rounds = 3 + (int)vrnd_n(&rng, 2);          /* the interface seats two clients per socket: the third (and fourth) queue */
+    bool ok = true;
+    for (int rd = 0; rd < rounds && ok; rd++) {
+        n[rd] = vctl_connect_all(ctl_dir16, fds[rd], NULL, 8);
+        if (n[rd] == 0) break;
+        owner_turns(15);
+        ok = all_quiet(rd < 2 ? "control clients attached" : "control clients attached and more queued", rd < 2 ? rd + 1 : 2, rd < 2 ? 0 : rd - 1);
+    }
+    if (n[0]) vobs("control_client_rounds", 1);
+    /* they leave, in a seed-chosen order */
+    int order[4] = { 0, 1, 2, 3 }; for (int i = 3; i > 0; i--) { int j = (int)vrnd_n(&rng, (uint32_t)i + 1); int t = order[i]; order[i] = order[j]; order[j] = t; }
+    for (int k = 0; k < 4; k++) { int rd = order[k]; for (int i = 0; i < n[rd]; i++) close(fds[rd][i]); n[rd] = 0; if (ok) { owner_turns(15); ok = all_quiet("control clients leaving", -1, -1); } }
+    for (int i = 0; i < n_ag; i++) { struct agent *a = &ag[i]; if (a->ep.s && !a->failed && !a->ep.term) { vx_await(&a->ep, 0); short rev; if (ok && !quiet_samples(a, 3, &rev)) { owner_turns(10); if (!quiet_samples(a, 3, &rev)) eviol("not-quiet:cond0", vtp_name[a->ep.tp], "ep%d with condition 0 after control clients came and went: xcm fd readable", a->ep.id); } } }
+}
+
 static void probe_server(struct agent *s)
 {
     short rev; const char *tn = vtp_name[s->ep.tp];
@@ -643,12 +700,13 @@ static void gen_case(struct ecase *c, long idx)
             c->topology = (int)vrnd_n(&r, 4); }
     }
     if (prop == PROP_C04 && vrnd_p(&r, 15)) { c->blocking_scenario = true; c->use_dns = false; c->topology = 0; }
+    if (prop == PROP_C16 && vrnd_p(&r, 30)) c->ctl = true;
 }
 
 static void case_json(const struct ecase *c, char *buf, size_t cap)
 {
-    snprintf(buf, cap, "{\"case\":%ld,\"sub_seed\":\"%" PRIu64 "\",\"transport\":\"%s\",\"messages\":%d,\"bidir\":%d,\"plan_class\":%d,\"speculative_start\":%d,\"dns\":%d,\"dns_deliver\":%d,\"dns_after\":%d,\"topology\":%d,\"size_class\":%d,\"blocking_scenario\":%d}",
-             c->idx, c->sub_seed, vtp_name[c->tp], c->nmsg, c->bidir, c->plan_class, c->speculative_start, c->use_dns, c->dns_deliver, c->dns_after, c->topology, c->size_class, c->blocking_scenario);
+    snprintf(buf, cap, "{\"case\":%ld,\"sub_seed\":\"%" PRIu64 "\",\"transport\":\"%s\",\"messages\":%d,\"bidir\":%d,\"plan_class\":%d,\"speculative_start\":%d,\"dns\":%d,\"dns_deliver\":%d,\"dns_after\":%d,\"topology\":%d,\"size_class\":%d,\"blocking_scenario\":%d,\"control_clients_at_quiescence\":%d}",
+             c->idx, c->sub_seed, vtp_name[c->tp], c->nmsg, c->bidir, c->plan_class, c->speculative_start, c->use_dns, c->dns_deliver, c->dns_after, c->topology, c->size_class, c->blocking_scenario, c->ctl);
 }
 
 static void apply_plan(struct vs_plan *p, int plan_class)
@@ -668,6 +726,7 @@ static void one_case(long idx, void *arg)
     vdns_reset(); vdns_enable(c.use_dns);
     if (c.blocking_scenario) { blocking_case(&c); vclass("blocking-scenario"); vsig_str(cj + 20); vcase_done(true); if (idx < 2) vsample(cj); return; }
 
+    if (c.ctl) { snprintf(ctl_dir16, sizeof ctl_dir16, "%s/ctl16-%d", va.dir, (int)getpid()); mkdir(ctl_dir16, 0700); setenv("XCM_CTL", ctl_dir16, 1); vs_ledger_reset(); }
     /* server */
     struct agent *S = new_agent(R_SERVER, c.tp, vmix(c.sub_seed ^ 5));
     char saddr[256]; static int ctr; ctr++;
@@ -761,6 +820,7 @@ static void one_case(long idx, void *arg)
                     vobs("quiescent_pairs_probed", 1);
                     for (int i = 0; i < n_ag && vviol_count() == 0; i++) if (ag[i].role != R_SERVER && ag[i].ep.s && !ag[i].failed) { ag[i].ep.plan.quiet = true; if (ag[i].peer) ag[i].peer->ep.plan.quiet = true; probe_conn(&ag[i], ag[i].peer); }
                     if (vviol_count() == 0) probe_server(S);
+                    if (vviol_count() == 0 && c.ctl) probe_ctl_quiet();
                 }
             }
             if (prop == PROP_C04 && vviol_count() == 0 && C->ep.s && !C->failed && C->peer && C->peer->ep.s && !C->peer->failed && vrnd_p(&rng, 40)) {
